@@ -27,7 +27,7 @@ Definition sm_lsf_frame (s : sm_state) (fr : list Z) : sm_outcome :=
 
 Definition sm_lich_frame (s : sm_state) (fr : list Z) : sm_outcome :=
   match lich_of fr with
-  | None => (s, RFail, None, [])
+  | None => (s, RFail, Some 128%Z, [])     (* uncorrectable LICH: high cost, nothing collected *)
   | Some lich =>
     let n := N.land (N.shiftr (nth 5 lich 0) 5) 7 in
     let cb1 := mkcb FLich lich 0 in
